@@ -32,8 +32,12 @@ impl ProgramArchive {
     ) -> Result<ProgramArchive, (FileLibrary, Vec<Report>)> {
         let mut merger = Merger::new();
         let mut reports = vec![];
-        for (file_id, definitions) in program_contents {
-            if let Err(mut errs) = merger.add_definitions(*file_id, definitions) {
+        // Files are visited in the order they were parsed, so that it is always the later
+        // definition of a name that is reported as a duplicate.
+        let mut file_ids = program_contents.keys().copied().collect::<Vec<_>>();
+        file_ids.sort_unstable();
+        for file_id in file_ids {
+            if let Err(mut errs) = merger.add_definitions(file_id, &program_contents[&file_id]) {
                 reports.append(&mut errs);
             }
         }
